@@ -23,7 +23,8 @@ type efield struct {
 	Off    string
 	Width  int // octets of the word it lives in; -1 variable
 	Shift  int
-	Bits   int // number of bits (Width*8 for whole words)
+	Bits   int   // number of bits (Width*8 for whole words)
+	Mask   int64 // encoder side: the member is and-ed with this before it is placed (0 = not masked)
 	LenOf  string
 	Order  string
 	Pos    token.Pos
@@ -59,7 +60,7 @@ func fieldsOf(segs []seg, base poly) ([]efield, poly, error) {
 			bits := append([]bitField{}, s.Bits...)
 			sort.Slice(bits, func(i, j int) bool { return bits[i].Shift > bits[j].Shift })
 			for _, b := range bits {
-				out = append(out, efield{Name: trimElem(b.Field), Off: off.String(), offPol: off.clone(), Width: s.Width, Shift: b.Shift, Bits: top - b.Shift, Order: s.Order, Pos: s.Pos})
+				out = append(out, efield{Name: trimElem(b.Field), Off: off.String(), offPol: off.clone(), Width: s.Width, Shift: b.Shift, Bits: top - b.Shift, Mask: b.Mask, Order: s.Order, Pos: s.Pos})
 				top = b.Shift
 			}
 			off = polyAdd(off, constPoly(int64(s.Width)), 1)
@@ -212,6 +213,12 @@ func compareFields(got []efield, want []efield) []string {
 		}
 		if w.Width > 0 && g.Shift == w.Shift && g.Bits != w.Bits {
 			diffs = append(diffs, fmt.Sprintf("%s occupies %d bits, specified %d", w.Name, g.Bits, w.Bits))
+		}
+		if w.Width > 0 && g.Mask != 0 && w.Bits > 0 && w.Bits < 63 {
+			full := int64(1)<<uint(w.Bits) - 1
+			if g.Mask&full != full {
+				diffs = append(diffs, fmt.Sprintf("%s is and-ed with %#x before it is written, the field has %d bits (%#x): larger values are silently truncated", w.Name, g.Mask, w.Bits, full))
+			}
 		}
 	}
 	for _, g := range got {
@@ -377,6 +384,16 @@ func c14Compare(c *Ctx, r *Report, l *layouts, table bool) {
 		}
 		diffs := compareReads(dl.header, "Hdr.", hdrWant)
 		diffs = append(diffs, compareReads(dl.records, "CDR.", recWant)...)
+		if !table {
+			// a member the encoder narrows below the bits it occupies cannot be restored by any decoder
+			for _, e := range append(append([]efield{}, encHdr...), encRec...) {
+				if e.Mask != 0 && e.Bits > 0 && e.Bits < 63 {
+					if full := int64(1)<<uint(e.Bits) - 1; e.Mask&full != full {
+						diffs = append(diffs, fmt.Sprintf("the encoder and-s %s with %#x although the member occupies %d bits: values above the mask are not restored by decoding", e.Name, e.Mask, e.Bits))
+					}
+				}
+			}
+		}
 		what := "encoder"
 		if table {
 			what = "TS 32.297 table"
